@@ -258,6 +258,38 @@ func runF(op string, in M) (M, M) {
 			depth = 3
 		}
 		return out, M{"hmac": hmacChain(c.HmacKey(), seed, func(I []byte) []byte { return I }, depth)}
+	case "slip10.deep":
+		// a plug-in curve that rejects the first `deep` candidates: SLIP-0010 retries until a candidate is valid, however
+		// many that takes.  Only the tail of the reference chain is logged; the specification checks its links and the result.
+		n := vIntOf(in["deep"])
+		tc := &toyCurve{}
+		for i := 0; i < n; i++ {
+			tc.script = append(tc.script, "invalid")
+		}
+		tc.script = append(tc.script, "ok")
+		seed := vBytes(in["seed"])
+		var e *slip10.ExtendedKey
+		var err error
+		var chainF []M
+		var p string
+		if in["level"] == "master" {
+			p = vCatch(func() { e, err = slip10.NewMasterKey(seed, tc) })
+			chainF = hmacChain(tc.HmacKey(), seed, func(I []byte) []byte { return I }, n+1)
+		} else {
+			cc := append([]byte{}, seed[:32]...)
+			parent := &slip10.ExtendedKey{ChainCode: append([]byte{}, cc...), Key: &toyKey{k: append([]byte{}, seed[:32]...), c: tc, priv: true}}
+			index := slip10.Hardened + 5
+			p = vCatch(func() { e, err = parent.DeriveChild(index) })
+			data0 := append(append([]byte{0}, seed[:32]...), ser32(index)...)
+			chainF = hmacChain(cc, data0, func(I []byte) []byte { return append(append([]byte{1}, I[32:]...), ser32(index)...) }, n+1)
+		}
+		out := extOut(e, err, p)
+		out["ncalls"] = len(tc.calls)
+		out["last_call"] = []int{}
+		if len(tc.calls) > 0 {
+			out["last_call"] = vInts(tc.calls[len(tc.calls)-1])
+		}
+		return out, M{"tail": chainF[len(chainF)-3:]}
 	case "slip10.child":
 		idx := vIntList(in["index"])
 		index := uint32(idx[1]) | uint32(idx[0])<<31
@@ -275,8 +307,12 @@ func runF(op string, in M) (M, M) {
 			}
 			var err error
 			parentObj, err = slip10.DeriveKeyFromPath(vBuf("slip10 seed", in["obj_seed"]), realCurve(curve), opath)
-			if err != nil {
-				panic("verif: object path does not derive")
+			if err != nil { // every path handed in here is a defined derivation: an answer, reported through the event
+				in["parent"] = M{"private": true, "key": []int{}, "chain": []int{}}
+				in["parent_priv"], in["chain"] = []int{}, []int{}
+				out := extOut(nil, err, "verif: DeriveKeyFromPath failed along a defined path of "+fmt.Sprint(len(opath))+" steps: "+err.Error())
+				out["parent_unchanged"] = true
+				return out, M{"hmac": []M{}, "parent_pub": M{"of": []int{}, "pub": []int{}}, "fp_of": []int{}, "hash160": []int{}, "child_pub": M{"of": []int{}, "pub": []int{}}}
 			}
 			privBytes = append([]byte{}, parentObj.Key.Bytes()...)
 			chain = append([]byte{}, parentObj.ChainCode...)
@@ -481,6 +517,32 @@ func TestVerifDriver(t *testing.T) {
 			path = [][]int{}
 		}
 		emit("slip10.path", M{"curve": curve, "seed": vInts(seed), "path": path})
+	}
+	// very many rejected candidates in a row (a curve with a thin key set): the retry goes on until one is valid
+	for _, lvl := range []string{"master", "child"} {
+		for _, n := range []int{255, 256, 1000, 4095, 4096, 4097, 5000, 70000} {
+			seed := make([]byte, 32)
+			r.Read(seed)
+			emit("slip10.deep", M{"curve": "toy", "level": lvl, "deep": n, "seed": vInts(seed)})
+		}
+	}
+	// long chains: parents 255, 256, 257, 511, 512 steps below the master key (whatever counts levels must not run out
+	// or wrap; the fingerprint is that of the parent at every depth), a hardened and - where defined - a normal child of each
+	for _, curve := range []string{"secp256k1", "p256", "ed25519"} {
+		for _, L := range []int{255, 256, 257, 511, 512} {
+			seed := make([]byte, 32)
+			r.Read(seed)
+			op := make([][]int, L)
+			for i := range op {
+				op[i] = []int{1, (i * 7) % 1000}
+			}
+			emit("slip10.child", M{"curve": curve, "obj_seed": vInts(seed), "obj_path": op, "pub": false, "index": []int{1, L}, "prior": []int{}})
+			if curve != "ed25519" {
+				emit("slip10.child", M{"curve": curve, "obj_seed": vInts(seed), "obj_path": op, "pub": false, "index": []int{0, L}, "prior": []int{3}})
+				emit("slip10.child", M{"curve": curve, "obj_seed": vInts(seed), "obj_path": op, "pub": true, "index": []int{0, L}, "prior": []int{}})
+			}
+			emit("slip10.path", M{"curve": curve, "seed": vInts(seed), "path": append(append([][]int{}, op...), []int{1, 5})})
+		}
 	}
 	// the same curve twice in a row with different seeds of one length (the caller's buffer is the same)
 	for _, curve := range []string{"secp256k1", "p256", "ed25519"} {
